@@ -45,6 +45,18 @@ CLAIMED = {
          "Framing.tla composes a per-connection byte stream (any segmentation) with Collector.tla; FramingMC explores all segmentations and interleavings of two small streams with an undecodable message anywhere. The real connection handler is run on every single/double cut point and byte-by-byte splits (in-memory connection: one write = one read boundary) and on real loopback sockets with random cuts and delays; TLC checks that each delivery is the decoding of exactly the next whole frame of its connection and that End happens exactly on the first undecodable message or on client close with nothing pending.",
          "Trusted: TLC, harness, verif hook VerifHandleTCPConn. Kernel-level segmentation on loopback is whatever the kernel does; the in-memory part is deterministic.",
          "TLA+ Framing spec (TLC exhaustive) + exhaustive cut-point driving of the real handler + TLC trace validation"),
+ "C05": ("DESIGN.md §4 C05",
+         "Aggregation.tla carries the code-shaped transitions (+=, latest value, 8*diff/dt, per-node previous end) and, over a history variable, the declarative reading of the property (ArithmeticOK: per node totals = latest, deltas = sum since reset, throughput from the node's previous record, common fields follow a node holding the latest end). TLC checks their agreement on all record/reset histories of one flow within the exporter contract (420 k - several M states) plus independence and reset-only-delta action properties; random histories on the real AggregationProcess are validated step by step on the full projection of every flow record, with ArithmeticOK evaluated on every state.",
+         "Trusted: TLC, harness projections through GetRecords and the snapshot hook. Counters below 2^27; uint64 overflow not covered.",
+         "TLA+ Aggregation spec (TLC exhaustive, declarative vs code-shaped) + TLC trace validation of full flow-record projections"),
+ "C06": ("DESIGN.md §4 C06",
+         "Aggregation.tla models the expiry queue as a set of [key, active, inactive] items and the scan as one atomic action parameterised by the failing-key set and the pop order; AggExpiryMC checks Agreement, CallbackIff, InactiveRemoves/ActiveKeeps, FailureKeepsFlow exhaustively (2 keys, now<=5, every failing subset). Every edge of TLC's state graph is replayed on the real process under virtual time, plus random histories; flow map, heap array (index fields, heap order, back pointers), GetNumFlows and GetExpiry are compared after every call.",
+         "Trusted: TLC, harness, verif hooks VerifShiftDeadlines/VerifSnapshot. A deadline exactly equal to the scan instant cannot be produced by the hook.",
+         "TLA+ Aggregation spec (TLC exhaustive) + replay of TLC state-graph schedules under virtual time + TLC trace validation"),
+ "C07": ("DESIGN.md §4 C07",
+         "Same specification and engines as C06: ready / retries / filled and the correlate fields are state; NeverHalfFilled, ReadyAtOnce, ReadyComplete and RetriesBounded are invariants checked exhaustively and on every state of every validated trace; random histories add never-correlated flows, denied/rejected flows and stale records.",
+         "Trusted: as C06. Records of one 5-tuple with conflicting classifications are modelled but the declarative invariants are not asserted for them.",
+         "TLA+ Aggregation spec (TLC exhaustive) + graph replay / random histories + TLC trace validation"),
 }
 PENDING = {}
 
